@@ -125,6 +125,16 @@ def oracle(case):
             if k == 0:
                 # a receiver may do what it wants with its copy: nobody else may notice
                 ev.data['tampered'] = True
+        if k == 1:
+            # a callable object that happens to have an attribute named `queue` (a mailbox):
+            # it is bound as a callable, like any other
+            class Mailbox:
+                def __init__(self):
+                    self.queue = []
+
+                def __call__(self, ev):
+                    fn(ev)
+            return Mailbox()
         return fn
     callables = [make_callable(0), make_callable(1)]
     viol, labels = [], {}
